@@ -925,7 +925,9 @@ func (o *valOverlap) sameShape1(a, b *model.Sel) *valConflict {
 	return nil
 }
 
-func (o *valOverlap) isObject(name string) bool { return name != "" && o.c.s.Kind(name) == model.KObject }
+func (o *valOverlap) isObject(name string) bool {
+	return name != "" && o.c.s.Kind(name) == model.KObject
+}
 
 // canMerge checks one pair of FieldsInSetCanMerge; nil = the pair can be merged.
 func (o *valOverlap) canMerge(a, b *model.Sel) *valConflict {
